@@ -644,6 +644,23 @@ func c11Run(c c11Case) (v vVerdict) {
 					mustOK = true
 				}
 			}
+			if st.Kind == "slowclient" && e.running {
+				// the status publisher is busy and its queue is full when the request is served: the report has to wait, not vanish
+				atomic.StoreInt32(&vClientHold, 1)
+				for full, k := 0, 0; full < 3 && k < 200; k++ {
+					select {
+					case clientMessageChan <- ClientUpdate{"VERIFFILL", k}:
+					default:
+						full++
+						time.Sleep(300 * time.Microsecond)
+					}
+				}
+				go func() {
+					time.Sleep(30 * time.Millisecond)
+					atomic.StoreInt32(&vClientHold, 0)
+				}()
+				e.classes["status-queue-full"] = true
+			}
 			if st.Flag {
 				err, bad = e.call("AddGroupTriggerCoupling", func() error { var r bool; return sc.AddGroupTriggerCoupling(gts, &r) })
 			} else {
@@ -981,6 +998,9 @@ func c09rGen(t *rapid.T) c11Case {
 			st := c11Step{Op: "group", Src: idx("src"), Flag: rapid.IntRange(0, 3).Draw(t, "add") != 0}
 			for q, nrx := 0, rapid.IntRange(1, 3).Draw(t, "nrx"); q < nrx; q++ {
 				st.Rx = append(st.Rx, idx("rx"))
+			}
+			if rapid.IntRange(0, 4).Draw(t, "slowclient") == 0 {
+				st.Kind = "slowclient"
 			}
 			c.Steps = append(c.Steps, st)
 		case k < 8:
